@@ -238,7 +238,7 @@ func (g *xgen) stmt() string {
 
 func runXmod(t *testing.T) {
 	H.Rule("xmod", "rapid: 2–6 named constants (false/true/0/1/-1/\"\"/\"a\"/null/undefined/NaN/…) supplied through one of five mechanisms — `export const` imported from another module, a TypeScript enum or const enum imported from another module (all three are inlined by the linker and folded only while printing), `define`, or same-file `const` — and 1–6 statements (log/if/&&/||/while/return/switch) whose tests are trees (depth ≤3) over && || ?? ?: ! == === , typeof + with side-effect probes, the constants and literals as leaves; bundled with minify-syntax (× identifiers × whitespace), iife. Oracle: V8 trace of the program with the constants written out as literals vs V8 trace of the bundle. Non-trivial = at least one probe and ≥2 events.")
-	H.SetupRapid("xmod", H.N(4000, 200000))
+	H.SetupRapid("xmod", H.N(4000, 80000))
 	rapid.Check(t, func(rt *rapid.T) {
 		c := XCase{Consts: map[string]string{}}
 		c.Mech = rapid.SampledFrom([]string{"import-const", "import-const", "import-enum", "import-const-enum", "define", "same-file"}).Draw(rt, "mech")
